@@ -97,16 +97,49 @@ def run_bounded(run, conc, tier, name=None, limit=None):
     return first
 
 
+_PAR = {}
+
+
+def _verify_one(i):
+    c, registry, both = _PAR['contracts'][i], _PAR['registry'], _PAR['both']
+    try:
+        res = verify_contract(c, registry, both=both)
+        res_err = None
+    except Exception:
+        res, res_err = None, traceback.format_exc()[-400:]
+    return i, res, res_err
+
+
 def verify_functions(run, contracts, registry, concretes=None, tier='quick', both=False):
-    """Verify each contract; record obligations; replay failures."""
+    """Verify each contract; record obligations; replay failures.  Contracts are independent: with several of them
+    the VC generation and solving run in forked worker processes (results are plain data), recording stays here."""
+    import multiprocessing
+    import os
     concretes = concretes or {}
-    for c in contracts:
-        t0 = time.time()
+    contracts = list(contracts)
+    results = {}
+    if len(contracts) > 1 and os.environ.get('VERIF_E1_PARALLEL', '1') != '0':
+        _PAR.update(contracts=contracts, registry=registry, both=both)
         try:
-            res = verify_contract(c, registry, both=both)
+            ctx = multiprocessing.get_context('fork')
+            with ctx.Pool(min(12, len(contracts))) as pool:
+                for i, res, err in pool.imap_unordered(_verify_one, range(len(contracts))):
+                    results[i] = (res, err)
         except Exception:
-            run.undecided('%s.engine' % c.funcname, 'E1/pyvc', 'engine error: ' + traceback.format_exc()[-400:])
-            continue
+            results = {}
+    for i, c in enumerate(contracts):
+        t0 = time.time()
+        if i in results:
+            res, err = results[i]
+            if err is not None:
+                run.undecided('%s.engine' % c.funcname, 'E1/pyvc', 'engine error: ' + err)
+                continue
+        else:
+            try:
+                res = verify_contract(c, registry, both=both)
+            except Exception:
+                run.undecided('%s.engine' % c.funcname, 'E1/pyvc', 'engine error: ' + traceback.format_exc()[-400:])
+                continue
         if res.sha:
             run.function(c.qualname, res.sha)
         for k, v in res.laws.items():
